@@ -158,6 +158,8 @@ def shards(tier):
     if tier == "thorough":
         out += [feat(KEYS, "full", 2, j, 96) for j in range(96)]
     out += [feat([k], "full", 3) for k in KEYS]
+    # size ladder: long collections (a chunked writer / reader must not care where a chunk ends)
+    out += [{"part": "long", "length": n, "tier": tier} for n in ([17, 1001] if tier == "quick" else [17, 129, 1001, 2049])]
     if tier == "thorough":
         for a, b in itertools.combinations(KEYS, 2):
             out += [feat([a, b], "mid", 3, j, 4) for j in range(4)]
@@ -166,6 +168,12 @@ def shards(tier):
 
 def run_shard(shard, rec):
     tier = shard["tier"]
+    if shard["part"] == "long":
+        feats = features_over(KEYS, ALPHA["small"])
+        coll = [feats[(i * 7) % len(feats)] for i in range(shard["length"])]
+        for indent in ("default", 0):
+            check_case({"features": coll, "extra": [], "pos": "last", "indent": indent, "suffix": ""}, rec)
+        return
     if shard["part"] == "meta":
         configs = []
         indents = ["default", 0, 4] if tier == "quick" else ["default", None, 0, 1, 4]
